@@ -50,9 +50,11 @@ def run(ctx):
 
 
 RULE = ('vectors enumerated by TLC from MC_AuxEll: 13 lattice ellipsoids (1-f = P 2^-k, b/a from 1/64 to 64) x 36 (from, to) pairs x '
-        '{series, exact} x lattice angles (tangent s m 2^e, m in {1,3,5}, e from -1074 to 900, the equator and the poles, two AuxAngle '
-        'forms); 13 x 216 conversion paths x modes x angles; 12 x 12 modulus/parameter classes x arguments for the Legendre family; '
-        'the Carlson argument lattice restricted to the documented domains; plus seeded random law records (18 kinds). '
+        '{series, exact} x lattice angles (tangent s m 2^e, m in {1,3,5}, e from -1074 to 900, the equator and the poles, three AuxAngle '
+        'forms incl. (+-inf, 1) and (+-0, 4)) x {AuxLatitude(a, f), AuxLatitude::axes(a, b)}; 13 x 216 conversion paths x modes x angles; '
+        '12 x 12 modulus/parameter classes x arguments (0 included) x 4 ways of setting the parameters for the Legendre family; '
+        'the Carlson argument lattice restricted to the documented domains; the AuxAngle class on small integer directions '
+        '(normalized, copyquadrant, +=, degrees) and the two WGS84 singletons; plus seeded random law records (20 kinds). '
         'distinct_nontrivial = distinct lattice vectors.')
 TRUSTED = ['TLC', 'AuxLat.tla', 'Elliptic.tla', 'EllipsoidLaws.tla',
            'drv_auxell.cpp (binary128 reference evaluation of the defining closed forms and integrals, residual quantisation)']
